@@ -835,6 +835,7 @@ func vC02Blip(t *testing.T, rt *RestTester, in *vC02Inst, pass, u string, pr vC0
 	var mu sync.Mutex
 	var changesRaw, revRaw bytes.Buffer
 	listed, foreign := false, []string{}
+	wanted := 0
 	revEnts := []vObj{}
 	attEvents := []vObj{}
 	var changesDone, revsDone sync.WaitGroup
@@ -912,6 +913,7 @@ func vC02Blip(t *testing.T, rt *RestTester, in *vC02Inst, pass, u string, pr vC0
 			mu.Lock()
 			if id == in.docID {
 				listed = true
+				wanted++
 				answer = append(answer, []any{}) // want it, nothing known
 				revsDone.Add(1)
 			} else {
@@ -1030,6 +1032,10 @@ func vC02Blip(t *testing.T, rt *RestTester, in *vC02Inst, pass, u string, pr vC0
 			"listed": listed, "foreign": vC02Uniq(foreign), "rq": fmt.Sprintf("subChanges(%s) since=%d", pr.name, in.seq0)},
 		{"a": "Read", "c": in.idx, "pass": pass, "surf": "BlipRev", "fl": vObj{"delta": false, "proto": pr.name, "removals": pr.removals}, "u": u, "rev": "", "st": subSt, "mk": rmk, "am": ram, "ents": revEnts,
 			"listed": false, "foreign": []string{}, "rq": "rev/norev after subChanges"},
+	}
+	for _, ev := range attEvents { // "single": the document was announced (and so sent) exactly once on this connection; with two rev
+		// messages in flight the first reply already takes the attachment off the allow-list while the second is being handled
+		ev["fl"].(vObj)["single"] = wanted == 1
 	}
 	evs = append(evs, attEvents...)
 	evs = append(evs, vObj{"a": "Read", "c": in.idx, "pass": pass, "surf": "BlipGetRev", "fl": vObj{"proto": pr.name}, "u": u, "rev": "", "st": grSt, "mk": gmk, "am": gam, "ents": grEnts,
